@@ -2857,11 +2857,7 @@ XPath::locationPathPattern(
             XalanNode&              context, 
             OpCodeMapPositionType   opPos) const
 {
-    eMatchScore score = eMatchScoreNone;
-
-    stepPattern(executionContext, &context, opPos + 2, score);
-
-    return score;
+    return stepPattern(executionContext, &context, opPos + 2, 0);
 }
 
 
@@ -3124,70 +3120,99 @@ isRootNodeType(XalanNode::NodeType  theType)
 
 
 
-XalanNode*
+XPath::eMatchScore
 XPath::stepPattern(
             XPathExecutionContext&  executionContext,
-            XalanNode*              context, 
+            XalanNode*              context,
             OpCodeMapPositionType   opPos,
-            eMatchScore&            scoreHolder) const
+            const PatternStep*      previous) const
 {
+    assert(context != 0);
+
     const XPathExpression&  currentExpression = getExpression();
 
+    const PatternStep   theStep(opPos, previous);
+
     const OpCodeMapPositionType     endStep = currentExpression.getNextOpCodePosition(opPos);
-    OpCodeMapValueType              nextStepType = currentExpression.getOpCodeMapValue(endStep);
 
-    bool    fDoPredicates = true;
-
-    if(XPathExpression::eENDOP != nextStepType)
+    if (XPathExpression::eENDOP != currentExpression.getOpCodeMapValue(endStep))
     {
-        // Continue step via recursion...
-        context = stepPattern(
-                        executionContext,
-                        context,
-                        endStep,
-                        scoreHolder);
-
-        if(0 == context)
-        {
-            scoreHolder = eMatchScoreNone;
-
-        }
-
-        if (scoreHolder == eMatchScoreNone)
-        {
-            // !!!!!!!!!!!!! Big ugly return here !!!!!!!!!!!!!!!!!!!
-            return 0;
-        }
-
-        scoreHolder = eMatchScoreOther;
-
-        if (nextStepType != XPathExpression::eMATCH_ANY_ANCESTOR_WITH_FUNCTION_CALL)
-        {
-            context = DOMServices::getParentOfNode(*context);
-        }
-
-        if(0 == context)
-        {
-            // !!!!!!!!!!!!! Big ugly return here !!!!!!!!!!!!!!!!!!!
-            return 0;
-        }
+        // Go to the last step of the pattern via recursion, collecting
+        // the steps on the way...
+        return stepPattern(
+                    executionContext,
+                    context,
+                    endStep,
+                    &theStep);
     }
+    else
+    {
+        // The last step is matched against the node, and the steps to the
+        // left of it against its ancestors.
+        const eMatchScore   score =
+            matchPatternStep(
+                executionContext,
+                context,
+                0,
+                theStep);
 
+        // The default priority of a pattern with more than one step is 0.5,
+        // whatever the node tests are.
+        return previous == 0 || score == eMatchScoreNone ? score : eMatchScoreOther;
+    }
+}
+
+
+
+XPath::eMatchScore
+XPath::matchPatternStep(
+            XPathExecutionContext&  executionContext,
+            XalanNode*              context,
+            XalanSize_t             height,
+            const PatternStep&      theStep) const
+{
     assert(context != 0);
+
+    const XPathExpression&  currentExpression = getExpression();
+
+    OpCodeMapPositionType           opPos = theStep.m_opPos;
+    const OpCodeMapPositionType     startOpPos = opPos;
+
+    const OpCodeMapValueType        stepType =
+        currentExpression.getOpCodeMapValue(opPos);
 
     OpCodeMapValueType  argLen = 0;
 
     eMatchScore         score = eMatchScoreNone;
 
-    const OpCodeMapPositionType     startOpPos = opPos;
-    const OpCodeMapValueType        stepType =
-        currentExpression.getOpCodeMapValue(opPos);
-
     switch(stepType)
     {
     case XPathExpression::eMATCH_ANY_ANCESTOR_WITH_FUNCTION_CALL:
-        score = scoreHolder;
-        break;
+        // This stands for the '//' after a function call: the node, or one
+        // of its ancestors, is in the node-set the function returns.
+        if (theStep.m_previous != 0)
+        {
+            assert(currentExpression.getOpCodeMapValue(theStep.m_previous->m_opPos) == XPathExpression::eOP_FUNCTION);
+
+            const XObjectPtr        obj(executeMore(context, theStep.m_previous->m_opPos, executionContext));
+            assert(obj.get() != 0);
+
+            const NodeRefListBase&  nl = obj->nodeset();
+
+            while(context != 0)
+            {
+                if (nl.indexOf(context) != NodeRefListBase::npos)
+                {
+                    // !!!!!!!!!!!!! Big ugly return here !!!!!!!!!!!!!!!!!!!
+                    return eMatchScoreOther;
+                }
+
+                context = DOMServices::getParentOfNode(*context);
+            }
+        }
+
+        // !!!!!!!!!!!!! Big ugly return here !!!!!!!!!!!!!!!!!!!
+        return eMatchScoreNone;
 
     case XPathExpression::eOP_FUNCTION:
         {
@@ -3197,50 +3222,9 @@ XPath::stepPattern(
             const XObjectPtr        obj(executeMore(context, opPos, executionContext));
             assert(obj.get() != 0);
 
-            const NodeRefListBase&              nl = obj->nodeset();
-
-            const NodeRefListBase::size_type    len = nl.getLength();
-
-            if (nextStepType == XPathExpression::eMATCH_ANY_ANCESTOR_WITH_FUNCTION_CALL)
+            if (obj->nodeset().indexOf(context) != NodeRefListBase::npos)
             {
-                bool    fFound = false;
-
-                while(context != 0 && fFound == false)
-                {
-                    for(NodeRefListBase::size_type i = 0; i < len; i++)
-                    {
-                        XalanNode* const    n = nl.item(i);
-
-                        if(n == context)
-                        {
-                            score = eMatchScoreOther;
-
-                            context = n;
-
-                            fFound = true;
-
-                            break;
-                        }
-                    }
-
-                    context = DOMServices::getParentOfNode(*context);
-                }
-            }
-            else
-            {
-                for(NodeRefListBase::size_type i = 0; i < len; i++)
-                {
-                    XalanNode* const    n = nl.item(i);
-
-                    if(n == context)
-                    {
-                        score = eMatchScoreOther;
-
-                        context = n;
-
-                        break;
-                    }
-                }
+                score = eMatchScoreOther;
             }
         }
         break;
@@ -3251,40 +3235,9 @@ XPath::stepPattern(
 
             opPos += 3;
 
-            const XalanNode::NodeType   nodeType = context->getNodeType();
-
-            if (nodeType == XalanNode::DOCUMENT_NODE ||
-                nodeType == XalanNode::DOCUMENT_FRAGMENT_NODE)
+            if (isRootNodeType(context->getNodeType()) == true)
             {
                 score = eMatchScoreOther;
-            }
-            else
-            {
-                const OpCodeMapPositionType     prevPos = currentExpression.getNextOpCodePosition(startOpPos);      
-                const OpCodeMapValueType        prevStepType = currentExpression.getOpCodeMapValue(prevPos);
-
-                if (eMatchScoreNone == score  && 
-                    (prevStepType == XPathExpression::eMATCH_ANY_ANCESTOR ||
-                     prevStepType == XPathExpression::eMATCH_ANY_ANCESTOR_WITH_PREDICATE))
-                {
-                    const NodeTester    theTester(
-                                    *this,
-                                    executionContext,
-                                    opPos,
-                                    argLen,
-                                    stepType);
-
-                    while(0 != context)
-                    {
-                        score =
-                            theTester(*context, context->getNodeType());
-
-                        if(eMatchScoreNone != score)
-                            break;
-
-                        context = DOMServices::getParentOfNode(*context);
-                    }
-                }
             }
         }
         break;
@@ -3312,83 +3265,29 @@ XPath::stepPattern(
 
     case XPathExpression::eMATCH_ANY_ANCESTOR:
     case XPathExpression::eMATCH_ANY_ANCESTOR_WITH_PREDICATE:
-        {
-            assert(fDoPredicates == true);
-            fDoPredicates = false;
-
-            argLen = currentExpression.getOpCodeArgumentLength(opPos);
-
-            XalanNode::NodeType     nodeType = context->getNodeType();
-
-            if(nodeType != XalanNode::ATTRIBUTE_NODE)
-            {
-                opPos += 3;
-
-                const NodeTester    theTester(
-                                    *this,
-                                    executionContext,
-                                    opPos,
-                                    argLen,
-                                    stepType);
-
-                for(;;)
-                {
-                    // A step of the pattern is on the child axis, and
-                    // the root is not the child of any node, so node()
-                    // does not match it.  The step that stands for a
-                    // leading '//' is different: that is the root, or any
-                    // of its descendants.
-                    score = stepType == XPathExpression::eMATCH_ANY_ANCESTOR &&
-                            isRootNodeType(nodeType) == true ?
-                                eMatchScoreNone :
-                                theTester(*context, nodeType);
-
-                    if (eMatchScoreNone != score)
-                    {
-                        score = 
-                            doStepPredicate(
-                                executionContext,
-                                context, 
-                                opPos + argLen,
-                                startOpPos,
-                                score);
-                        if (eMatchScoreNone != score)
-                        {
-                            break;
-                        }
-                    }
-
-                    context = DOMServices::getParentOfNode(*context);
-
-                    if (context == 0)
-                        break;
-
-                    nodeType = context->getNodeType();
-                }
-            }
-        }
-        break;
-
     case XPathExpression::eMATCH_IMMEDIATE_ANCESTOR:
         {
             argLen = currentExpression.getOpCodeArgumentLength(opPos);
 
+            opPos += 3;
+
             const XalanNode::NodeType   nodeType = context->getNodeType();
 
-            // The step is on the child axis.  Attributes are not children,
-            // and the root is not the child of any node, so node() does
-            // not match them.
+            // A step of the pattern is on the child axis.  Attributes
+            // are not children, and the root is not the child of any node,
+            // so node() does not match them.  The step that stands for a
+            // leading '//' is different: that is the root, or any of its
+            // descendants.
             if(nodeType != XalanNode::ATTRIBUTE_NODE &&
-               isRootNodeType(nodeType) == false)
+               (stepType == XPathExpression::eMATCH_ANY_ANCESTOR_WITH_PREDICATE ||
+                isRootNodeType(nodeType) == false))
             {
-                opPos += 3;
-
                 score = NodeTester(
                                 *this,
                                 executionContext,
                                 opPos,
                                 argLen,
-                                XPathExpression::eMATCH_IMMEDIATE_ANCESTOR)(*context, nodeType);
+                                stepType)(*context, nodeType);
             }
         }
         break;
@@ -3414,7 +3313,7 @@ XPath::stepPattern(
         }
     }
 
-    if (fDoPredicates == true && score != eMatchScoreNone)
+    if (score != eMatchScoreNone)
     {
         score =
             doStepPredicate(
@@ -3425,13 +3324,65 @@ XPath::stepPattern(
                 score);
     }
 
-    if (scoreHolder == eMatchScoreNone || 
-        score == eMatchScoreNone)
+    if (score != eMatchScoreNone && theStep.m_previous != 0)
     {
-        scoreHolder = score;
+        // The step matches the node.  Now the steps to the left of it must
+        // match the parent of the node or, when '//' stands between the two
+        // steps, any ancestor of the node.  Every ancestor is tried, not
+        // just the nearest one the previous step matches, because the
+        // steps further to the left may match for a higher one only
+        // ("/a//c" and "b/a//c" for a "c" in "/a/x/a" or "b/a/a").
+        const PatternStep&          thePrevious = *theStep.m_previous;
+
+        const OpCodeMapValueType    previousType =
+            currentExpression.getOpCodeMapValue(thePrevious.m_opPos);
+
+        const bool  fAnyAncestor =
+            previousType == XPathExpression::eMATCH_ANY_ANCESTOR ||
+            previousType == XPathExpression::eMATCH_ANY_ANCESTOR_WITH_PREDICATE;
+
+        XalanNode*  ancestor = DOMServices::getParentOfNode(*context);
+        XalanSize_t ancestorHeight = height + 1;
+
+        bool        fMatched = false;
+
+        // All the nodes are ancestors of the one the pattern is matched
+        // against, so the height above that one identifies a node.  When
+        // no ancestor of a node matched the previous steps, there is
+        // nothing to be found above that node the next time.
+        while(ancestor != 0 && ancestorHeight <= theStep.m_noMatchAbove)
+        {
+            if (matchPatternStep(
+                    executionContext,
+                    ancestor,
+                    ancestorHeight,
+                    thePrevious) != eMatchScoreNone)
+            {
+                fMatched = true;
+
+                break;
+            }
+            else if (fAnyAncestor == false)
+            {
+                break;
+            }
+
+            ancestor = DOMServices::getParentOfNode(*ancestor);
+            ++ancestorHeight;
+        }
+
+        if (fMatched == false)
+        {
+            score = eMatchScoreNone;
+
+            if (fAnyAncestor == true && height < theStep.m_noMatchAbove)
+            {
+                theStep.m_noMatchAbove = height;
+            }
+        }
     }
 
-    return score == eMatchScoreNone ? 0 : context;
+    return score;
 }
 
 
